@@ -3,6 +3,7 @@ CONSTANTS
   NC = 4
   NF = 2
   WinC = 2
+  CursorFromAccepted = TRUE
   StrictForward = TRUE
   StopAtGenesis = TRUE
   MaxFaults = 2
